@@ -20,6 +20,7 @@ type chooser struct {
 	max    int
 	timed  bool // windows of a few ticks and T steps
 	wild   int  // 0 = always possible steps; n>0: one step in n is not checked for possibility
+	bad    bool // loads that fail in Provision may occur (they trigger the known finding)
 	n      int
 	ticks  int
 	loaded bool
@@ -122,7 +123,11 @@ func (c *chooser) next(k *kase) (step, bool) {
 		c.loaded = true
 	default:
 		for text == "" {
-			switch x := r.Intn(100); {
+			x := r.Intn(100)
+			if c.timed && x >= 64 && x < 82 {
+				x = 95 // more clock steps in timed cases
+			}
+			switch {
 			case x < 30:
 				if live && len(parked) < 5 {
 					text = "N:" + r.Pick([]string{"G", "G", "P"})
@@ -145,7 +150,9 @@ func (c *chooser) next(k *kase) (step, bool) {
 			case x < 82:
 				text = c.loadStep(k.K)
 			case x < 85:
-				text = "B:" + keysText(c.keys(k.K))
+				if c.bad {
+					text = "B:" + keysText(c.keys(k.K))
+				}
 			case x < 87:
 				if live {
 					text = "C"
@@ -207,14 +214,14 @@ func (p *prop) Generate(rng *core.Rand, tier string, emit func(string)) {
 		emit("sched 1 L:0:1:100:1:0:0:0") // reports harness-infra
 		return
 	}
-	nPlain, nTimed, nBad, nStress := 2400, 160, 200, 0
+	nPlain, nTimed, nBad, nStress := 9000, 500, 400, 60
 	maxLen := 26
 	switch tier {
 	case "thorough":
-		nPlain, nTimed, nBad, nStress = 60000, 3000, 3000, 0
+		nPlain, nTimed, nBad, nStress = 60000, 3000, 3000, 400
 		maxLen = 40
 	case "search":
-		nPlain, nTimed, nBad, nStress = 8000, 500, 0, 0
+		nPlain, nTimed, nBad, nStress = 8000, 500, 0, 80
 		maxLen = 32
 	}
 	emit("static defer")
@@ -252,7 +259,7 @@ func (p *prop) Generate(rng *core.Rand, tier string, emit func(string)) {
 				if r.Chance(1, 10) {
 					K = 4 + r.Intn(2)
 				}
-				c := &chooser{rng: r, max: 3 + r.Intn(maxLen), timed: j.timed, wild: j.wild}
+				c := &chooser{rng: r, max: 3 + r.Intn(maxLen), timed: j.timed, wild: j.wild, bad: r.Chance(1, 6)}
 				if j.timed {
 					c.max = 4 + r.Intn(14)
 				}
@@ -276,6 +283,6 @@ func (p *prop) Generate(rng *core.Rand, tier string, emit func(string)) {
 	}
 	sr := rng.Fork()
 	for i := 0; i < nStress; i++ {
-		emit(fmt.Sprintf("stress %d %d", 4+sr.Intn(28), sr.Intn(9000)))
+		emit(fmt.Sprintf("stress %d %d", 2+sr.Intn(47), sr.Intn(9000)))
 	}
 }
